@@ -24,6 +24,7 @@ for _v in ('OMP_NUM_THREADS', 'OPENBLAS_NUM_THREADS', 'MKL_NUM_THREADS'):
 import numpy as np  # noqa: E402
 
 from common import Stream, budget, rng_for, to_gq, from_gq, dyadic, show
+import c11  # noqa: E402  (reconstruction oracle of fermionic_gaussian_decomposition, used to delimit known finding F12)
 
 TOL = 1e-9
 
@@ -33,14 +34,21 @@ TRUSTED = [
     'C12: numpy dense linear algebra of the oracles (eigvalsh, kron, matrix products) at 1e-9',
 ]
 ASSUMPTIONS = [
-    'weak-pairing (Delta = 2^-7, 2^-10) and band-hopping (2^-10 .. 2^-17) Hamiltonians: tolerance 1e-7 instead of 1e-9 (second-order '
+    'weak-pairing (Delta = 2^-7, 2^-10) and band-hopping (2^-10 .. 2^-17) Hamiltonians: tolerance 1e-6 instead of 1e-9 (largest residual observed on the pinned tree: 1.2e-7) (second-order '
     'amplitudes fall below EQ_TOLERANCE = 1e-8 and are pruned by the library); weaker pairing (2^-14 .. 2^-20) puts Bogoliubov '
-    'amplitudes within two decades of EQ_TOLERANCE where the unmodified code returns O(1)-wrong states (observed, see report) - '
-    'outside the regime this check decides, not generated',
+    'amplitudes within two decades of EQ_TOLERANCE where the unmodified code returns O(1)-wrong states even for the default '
+    'occupation (M = [[1,0,1],[0,-2,0],[1,0,-1]], Delta_01 = 2^-14: residual 1.41, still present after repair 7be94873): there the '
+    'annihilation block of W is numerically singular and fermionic_gaussian_decomposition fails its reconstruction, i.e. the class '
+    'of known finding F11 / F12 - not generated',
     'single-precision inputs (float32 / complex64) of the types stream: tolerance 1e-4 (LAPACK runs in single precision)',
     'history stream: subtraction with a pairing term only in the subtrahend is avoided (PolynomialTensor.__sub__ with a key only in '
     'the subtrahend is the known finding of C08, not the subject of C12)',
     'orbital energies / Schur forms enter the Model as the exact rational values of the floats the implementation computed',
+    'dtypes stream: the accepted array dtypes are hard-coded from a probe of the pinned tree (float16 and object arrays are rejected by '
+    'numpy.linalg.eigh, a bool hermitian_part with mu = 0 and pairing is rejected by numpy in majorana_form); int8 / uint8 matrices '
+    'with entries beyond half the range of the type, mu = 0 and pairing are the known finding F12-majorana-integer-overflow; '
+    'matrices with such large entries (up to 255) are compared at 1e-6 (absolute errors scale with the norm) and combined with '
+    'pairing only for mu = 0 (with mu != 0 they are weak-pairing Hamiltonians: residual 2.5e-4 observed on the pinned tree)',
 ]
 OPEN_STATEMENTS = [
     'subset_sum_spectrum: proved half — in every representation of the CAR with a vacuum, b+_S|vac> is an eigenvector of '
@@ -58,7 +66,8 @@ OPEN_STATEMENTS = [
     'summation step from the entry-level reindexing to the matrix identity O C O^T is argued in the docstring, not formalised.',
     'gaussian state / Slater determinant correctness (state = b+_1..b+_eta|vac> up to phase): oracle only; FALSE on the real '
     'code for explicit occupations of a non-particle-conserving Hamiltonian when the annihilation block of the Bogoliubov '
-    'matrix is singular (known finding F12, consequence of C11/F11).',
+    'matrix is singular (known finding F12, consequence of C11/F11); the default occupation is affected too when the Gaussian '
+    'decomposition of the transformation matrix is itself wrong (M = [[-50,1,2],[1,0,0],[2,0,-50]], Delta_02 = -1.5: residual 0.036).',
 ]
 
 # ----------------------------------------------------------------------------- independent dense algebra
@@ -339,8 +348,9 @@ def annihilation_block_singular(W, n):
     return bool(sv.min() < 1e-8)
 
 
-WEAK_STATE_TOL = 1e-7
+WEAK_STATE_TOL = 1e-6
 SINGLE_TOL = 1e-4
+LARGE_TOL = 1e-6
 
 
 def check_ham(ctx, s, c, M, D, const, mu, spec_reqs, model_reqs, n_occ):
@@ -365,6 +375,8 @@ def check_obj(ctx, s, c, H, Mc, D, const, spec_reqs, model_reqs, n_occ):
     TOL = WEAK_STATE_TOL if ('+weak' in str(c.get('kind', '')) or str(c.get('kind', '')).startswith('band')) else globals()['TOL']
     if c.get('single_precision'):
         TOL = SINGLE_TOL     # float32 / complex64 input: LAPACK works in single precision
+    if c.get('large_values'):
+        TOL = max(TOL, LARGE_TOL)     # entries up to 255: absolute errors scale with the norm of the matrix
     Hd = dense_H(Mc, D, const)
     w = np.linalg.eigvalsh(Hd)
     try:
@@ -406,10 +418,22 @@ def check_obj(ctx, s, c, H, Mc, D, const, spec_reqs, model_reqs, n_occ):
     occs += subsets
     energies = []
     singular = annihilation_block_singular(W, n)
+    decomposition_wrong = None
+    if singular and not conserving:
+        # does fermionic_gaussian_decomposition of the matrix handed over by the state preparation fail its own (C11)
+        # reconstruction oracle?  (known finding F11: singular left block)
+        try:
+            T = np.empty((n, 2 * n), dtype=complex)
+            T[:, :n] = np.conj(W[:, n:])
+            T[:, n:] = np.conj(W[:, :n])
+            decomposition_wrong = c11.oracle_gauss(of, T)[0] is not None
+        except Exception:
+            decomposition_wrong = True
     for occ in occs:
         cc = dict(c)
         cc['occupied_orbitals'] = occ
         cc['annihilation_block_singular'] = singular
+        cc['gaussian_decomposition_wrong'] = decomposition_wrong
         cc['conserves_particle_number'] = conserving
         try:
             E, psi = of.circuits.jw_get_gaussian_state(H, None if occ is None else list(occ))
@@ -810,6 +834,465 @@ def stream_types(ctx):
     return s
 
 
+# ----------------------------------------------------------------------------- (T) dtype of the stored matrices
+
+# array dtypes the unmodified implementation accepts for hermitian_part / antisymmetric_part in every combination probed
+# (chemical potential zero / non-zero, with / without antisymmetric part, C / Fortran order), hard-coded from a probe of the
+# pinned tree; float16 is rejected by numpy.linalg.eigh when mu = 0 and there is no antisymmetric part, object arrays are
+# rejected everywhere - both are left out; a bool hermitian_part with mu = 0 and a non-zero antisymmetric part is rejected too
+# (majorana_form subtracts the stored boolean matrix: numpy TypeError)
+DT_EXACT = ['int64', 'int32', 'int16', 'int8', 'uint8', 'bool', 'float64', 'complex128']
+DT_SINGLE = ['float32', 'complex64']
+DT_POOL = ['int64', 'int32', 'int8', 'bool', 'float32', 'complex64', 'int16', 'uint8', 'float64', 'complex128']
+MU_POOL0 = [(0, 'pyint'), (0.0, 'pyfloat'), (0, 'np.int64'), (0.0, 'np.float64')]
+MU_POOL1 = [(0.5, 'pyfloat'), (-1.5, 'pyfloat'), (1, 'pyint'), (2.0, 'np.float64'), (-1, 'np.int64'), (0.25, 'np.float32')]
+
+
+def dt_entry(rng, dt, diag):
+    if dt == 'bool':
+        return rng.choice([0, 1, 1])
+    if dt == 'uint8':
+        return rng.choice([0, 1, 2, 3]) if diag else rng.choice([1, 2, 3])
+    if dt.startswith('int'):
+        return rng.choice([-3, -2, -1, 0, 1, 2, 3]) if diag else rng.choice([-2, -1, 1, 2, 3])
+    if dt.startswith('float') or diag:
+        return rng.choice([-1.5, -0.5, 0.25, 1.0, 2.5, -2.0, 3.0]) if diag else rng.choice([-0.5, 0.25, 1.0, -2.0, 1.5])
+    return complex(rng.choice([-0.5, 0.25, 1.0, -2.0, 0.0]), rng.choice([-1.0, 0.5, 0.25, 2.0]))
+
+
+def dt_hermitian(rng, n, dt, structure):
+    """a Hermitian matrix whose entries are exactly representable in `dt`; 'spinblock': the two off-diagonal n/2 blocks vanish
+    and the up and down blocks differ"""
+    for _ in range(50):
+        M = np.zeros((n, n), dtype=complex)
+        h = n // 2
+        for i in range(n):
+            M[i, i] = dt_entry(rng, dt, True)
+            for j in range(i + 1, n):
+                if structure == 'spinblock' and (i < h) != (j < h):
+                    continue
+                if rng.random() < 0.85:
+                    v = dt_entry(rng, dt, False)
+                    M[i, j] = v
+                    M[j, i] = np.conj(v)
+        if structure != 'spinblock' or h < 1 or not np.array_equal(M[:h, :h], M[h:, h:]):
+            return M
+    return M
+
+
+def dt_antisymmetric(rng, n, dt, structure):
+    D = np.zeros((n, n), dtype=complex)
+    if dt in ('bool', 'uint8') or n < 2:
+        return D        # the only antisymmetric matrix these types can hold
+    for _ in range(rng.choice([1, 1, 2])):
+        i, j = rng.sample(range(n), 2)
+        v = dt_entry(rng, dt, False)
+        D[i, j] = v
+        D[j, i] = -v
+    return D
+
+
+def dt_array(A, dt, order):
+    """A (complex array with values representable in dt) as an array of dtype dt in the given memory order; None if not exact"""
+    A = np.asarray(A)
+    src = A if dt.startswith('complex') else A.real
+    if not dt.startswith('complex') and np.abs(A.imag).max() != 0:
+        return None
+    T = np.array(src, dtype=dt, order=order)
+    if not np.array_equal(T.astype(complex), A):
+        return None
+    return T
+
+
+def circ_equal(a, b, tol):
+    """two circuit descriptions (lists of layers of 'pht' / (i, j, theta, phi)) agree"""
+    if len(a) != len(b):
+        return False
+    for la, lb in zip(a, b):
+        if len(la) != len(lb):
+            return False
+        for x, y in zip(la, lb):
+            if isinstance(x, str) or isinstance(y, str):
+                if x != y:
+                    return False
+                continue
+            if int(x[0]) != int(y[0]) or int(x[1]) != int(y[1]):
+                return False
+            if abs(float(x[2]) - float(y[2])) > tol or abs(float(x[3]) - float(y[3])) > tol:
+                return False
+    return True
+
+
+def run_dtype_case(ctx, s, c, spec_reqs, model_reqs, n_occ):
+    """all checks for one Hamiltonian stored with the recorded dtypes (deterministic in the case record)"""
+    import warnings
+    of = ctx.of
+    QH = of.ops.QuadraticHamiltonian
+    M, D, const, mu = ham_from_case(of, c)
+    n = M.shape[0]
+    Mt = dt_array(M, c['M_dtype'], c['order'])
+    Dt = None if D is None else dt_array(D, c['Delta_dtype'], c['order'])
+    mut = typed_scalar(mu, c['mu_type'])
+    Mt0, Dt0 = Mt.copy(), None if Dt is None else Dt.copy()
+    real = np.abs(M.imag).max() == 0 and (D is None or np.abs(D.imag).max() == 0)
+    ref_dt = float if real else complex
+    try:
+        H = QH(Mt, Dt, const, mut)
+        Href = QH(np.array(M.real if real else M, dtype=ref_dt), None if D is None else np.array(D.real if real else D, dtype=ref_dt),
+                  const, float(mu))
+    except Exception as e:
+        s.violate('QuadraticHamiltonian(%s array) raised %s: %s' % (c['M_dtype'], type(e).__name__, e), c, {})
+        return
+    Mc = M - mu * np.eye(n)
+    check_obj(ctx, s, c, H, Mc, D, const, spec_reqs, model_reqs, n_occ)
+    tol = SINGLE_TOL if c.get('single_precision') else (LARGE_TOL if c.get('large_values') else TOL)
+    try:
+        es, W, cst = H.diagonalizing_bogoliubov_transform()
+        er, Wr, cr = Href.diagonalizing_bogoliubov_transform()
+        es, er, W, Wr = np.asarray(es, dtype=float), np.asarray(er, dtype=float), np.asarray(W), np.asarray(Wr)
+        conserving = W.shape == (n, n)
+        s.float_comparisons += 4
+        if W.shape != Wr.shape or err(es - er) > tol or abs(complex(cst) - complex(cr)) > tol:
+            s.violate('orbital energies / constant / shape of W for the %s matrix differ from the float64 / complex128 result'
+                      % c['M_dtype'], c, {'energies': es.tolist(), 'reference': er.tolist()})
+            return
+        if conserving:
+            if err(W @ W.conj().T - np.eye(n)) > tol:
+                s.violate('W W^dagger != 1 for the %s matrix' % c['M_dtype'], c, {'W': [[str(x) for x in r] for r in W]})
+            if err(W.T @ np.diag(es) @ W.conj() - Mc) > tol:
+                s.violate('W^T diag(eps) W^* != M - mu for the %s matrix' % c['M_dtype'], c, {'W': [[str(x) for x in r] for r in W]})
+        same = bool(err(W - Wr) <= (tol if c.get('single_precision') else 1e-10))
+        s.count('W-equals-reference:%s' % same)
+        # deprecated accessor
+        with warnings.catch_warnings():
+            warnings.simplefilter('ignore')
+            oe, oc = H.orbital_energies()
+        if err(np.asarray(oe, dtype=float) - es) > 0 or complex(oc) != complex(cst):
+            s.violate('orbital_energies() differs from diagonalizing_bogoliubov_transform()', c, {})
+        # spin sectors
+        if n % 2 == 0:
+            h = n // 2
+            for sct in (0, 1):
+                if conserving:
+                    e_s, W_s, c_s = H.diagonalizing_bogoliubov_transform(spin_sector=sct)
+                    e_s, W_s = np.asarray(e_s, dtype=float), np.asarray(W_s)
+                    blk = Mc[sct * h:(sct + 1) * h, sct * h:(sct + 1) * h]
+                    s.float_comparisons += 3
+                    s.count('spin-sector')
+                    if (W_s.shape != (h, h) or err(W_s @ W_s.conj().T - np.eye(h)) > tol
+                            or err(W_s.T @ np.diag(e_s) @ W_s.conj() - blk) > tol or err(e_s - np.linalg.eigvalsh(blk)) > tol
+                            or abs(complex(c_s) - const) > tol):
+                        s.violate('diagonalizing_bogoliubov_transform(spin_sector=%d) does not diagonalise the spin block of the '
+                                  '%s matrix' % (sct, c['M_dtype']), c, {'W': [[str(x) for x in r] for r in W_s]})
+                else:
+                    try:
+                        H.diagonalizing_bogoliubov_transform(spin_sector=sct)
+                        s.violate('spin_sector accepted for a non-conserving Hamiltonian (NotImplementedError for complex128 '
+                                  'input)', c, {})
+                    except NotImplementedError:
+                        s.count('spin-sector:not-implemented')
+        # circuits: compared with those of the float64 / complex128 object whenever the transforms coincide
+        dc, dcr = H.diagonalizing_circuit(), Href.diagonalizing_circuit()
+        gc, gcr = of.circuits.gaussian_state_preparation_circuit(H), of.circuits.gaussian_state_preparation_circuit(Href)
+        occ = [0] if n < 3 else [0, 2]
+        ge_, ger = (of.circuits.gaussian_state_preparation_circuit(H, occ),
+                    of.circuits.gaussian_state_preparation_circuit(Href, occ))
+        if c.get('single_precision'):
+            # angles of rotations that annihilate entries of size ~1e-7 are not determined at single precision
+            s.count('circuits-not-compared(single-precision)')
+        elif same:
+            ctol = 1e-9
+            s.count('circuits-compared')
+            s.float_comparisons += 3
+            if not circ_equal(dc, dcr, ctol):
+                s.violate('diagonalizing_circuit of the %s matrix differs from the one of the float64 / complex128 matrix'
+                          % c['M_dtype'], c, {'circuit': show(dc)[:400], 'reference': show(dcr)[:400]})
+            for (g, gr_), nm in (((gc, gcr), 'default'), ((ge_, ger), 'explicit')):
+                if not circ_equal(g[0], gr_[0], ctol) or list(g[1]) != list(gr_[1]):
+                    s.violate('gaussian_state_preparation_circuit (%s occupation) of the %s matrix differs from the one of the '
+                              'float64 / complex128 matrix' % (nm, c['M_dtype']), c, {})
+        else:
+            s.count('circuits-not-compared(gauge)')
+            if len(dc) != len(dcr):
+                s.violate('diagonalizing_circuit of the %s matrix has a different depth' % c['M_dtype'], c, {})
+    except Exception as e:
+        s.violate('%s matrix: %s: %s' % (c['M_dtype'], type(e).__name__, e), c, {})
+    if (not np.array_equal(Mt, Mt0) or Mt.dtype != Mt0.dtype
+            or (Dt is not None and (not np.array_equal(Dt, Dt0) or Dt.dtype != Dt0.dtype))):
+        s.violate('the constructor / diagonalisation modified its array arguments', c, {})
+
+
+def stream_dtypes(ctx):
+    s = Stream('dtypes', '(T) hermitian_part / antisymmetric_part stored as int64, int32, int16, int8, uint8, bool, float32, '
+               'complex64 (and float64, complex128) arrays in C and Fortran order (the types the pinned tree accepts, hard-coded), '
+               'chemical potential zero and non-zero of several scalar types, with and without antisymmetric part, even and odd '
+               'sizes, spin-block-diagonal (different up / down blocks) and dense: all oracles of the energies stream, W W^dagger = 1, '
+               'W^T diag(eps) W^* = M - mu, spin sectors 0 / 1, orbital_energies, and energies / W / circuits against the same matrix '
+               'stored as float64 / complex128; distinct = distinct (values, types)')
+    rng = rng_for(ctx.seed, 'c12-dtypes')
+    N = budget(ctx.tier, 100, 700)
+    if ctx.drift:
+        N = max(N, 300)
+    spec_reqs, model_reqs = [], []
+    for t in range(N):
+        dt = DT_POOL[t % len(DT_POOL)]
+        order = 'CF'[(t // len(DT_POOL)) % 2]
+        structure = rng.choice(['spinblock', 'spinblock', 'dense'])
+        n = rng.choice([4, 4, 6, 2]) if structure == 'spinblock' else rng.choice([2, 3, 3, 4, 5])
+        if n == 6 and ctx.tier != 'thorough' and rng.random() < 0.5:
+            n = 4
+        M = dt_hermitian(rng, n, dt, structure)
+        large = dt in ('int8', 'uint8') and rng.random() < 0.4
+        if large:
+            # entries beyond half the range of the type: sums of two stored entries do not fit the type any more
+            top = int(np.iinfo(dt).max)
+            i = rng.randrange(n)
+            M[i, i] = rng.randint(top // 2 + 1, top)
+            j = rng.randrange(n)
+            if j != i and (structure != 'spinblock' or (i < n // 2) == (j < n // 2)) and rng.random() < 0.5:
+                M[i, j] = M[j, i] = rng.randint(top // 2 + 1, top) * (1 if dt == 'uint8' else rng.choice([1, -1]))
+        D, dD = None, None
+        if rng.random() < 0.35:
+            dD = rng.choice(DT_POOL)
+            D = dt_antisymmetric(rng, n, dD, structure)
+        mu, kmu = rng.choice(MU_POOL0) if rng.random() < 0.5 else rng.choice(MU_POOL1)
+        if large and D is not None and D.any():
+            # entries ~200 with pairing ~1 is the weak-pairing regime (relative amplitudes ~1e-3, see ASSUMPTIONS): generated only
+            # with mu = 0, where the stored integer matrix reaches majorana_form (known finding F12-majorana-integer-overflow)
+            mu, kmu = rng.choice(MU_POOL0)
+        const = rng.choice([0.0, 1.0, -0.5])
+        if dt_array(M, dt, order) is None or (D is not None and dt_array(D, dD, order) is None):
+            s.count('values-do-not-fit-type')
+            continue
+        if dt == 'bool' and mu == 0 and D is not None and D.any():
+            # rejected by the pinned tree: majorana_form subtracts the stored boolean matrix (numpy TypeError)
+            s.count('rejected-by-pinned-tree:bool-matrix-with-pairing')
+            continue
+        c = case_of(M, D, const, mu, 'dtypes')
+        c.update({'structure': structure, 'M_dtype': dt, 'Delta_dtype': dD, 'order': order, 'mu_type': kmu,
+                  'single_precision': dt in DT_SINGLE or dD in DT_SINGLE, 'large_values': bool(large)})
+        s.case(c)
+        s.count('M:' + dt)
+        s.count('order:' + order)
+        s.count('structure:' + structure)
+        s.count('mu:%s' % ('zero' if mu == 0 else 'nonzero'))
+        s.count('Delta:%s' % ('none' if D is None else ('zero' if not D.any() else 'nonzero')))
+        s.count('n:%s' % ('even' if n % 2 == 0 else 'odd'))
+        if large:
+            s.count('values:beyond-half-range-of-' + dt)
+        run_dtype_case(ctx, s, c, spec_reqs, model_reqs, 2)
+    ans = ctx.driver.run([r for _, r, _, _ in spec_reqs])
+    for (c, _, w, ret), a in zip(spec_reqs, ans):
+        s.count('oracle:subset-sum-spectrum')
+        sp = np.array([rat_float(x) for x in a['spectrum']])
+        s.float_comparisons += len(sp)
+        if sp.shape != w.shape or err(sp - w) > (SINGLE_TOL if c.get('single_precision') else (LARGE_TOL if c.get('large_values') else TOL)):
+            s.violate('subset sums of the orbital energies + constant are not the spectrum of H', c,
+                      dict(ret, subset_sums=sp.tolist(), spectrum=w.tolist()))
+    return s
+
+
+# ----------------------------------------------------------------------------- (flags) chemical potential x spin sector
+
+SECTOR_MUS = [0.0, 0.5, -1.25]
+
+
+def simulate_description(of, description, start_orbitals, n):
+    """the state a circuit description prepares from the configuration state (the primitives jw_get_gaussian_state uses)"""
+    state = of.linalg.jw_configuration_state(list(start_orbitals), n)
+    for layer in description:
+        for op in layer:
+            if isinstance(op, str):
+                state = of.linalg.jw_sparse_particle_hole_transformation_last_mode(n).dot(state)
+            else:
+                i, j, theta, phi = op
+                state = of.linalg.jw_sparse_givens_rotation(i, j, theta, phi, n).dot(state)
+    return np.asarray(state).reshape(-1)
+
+
+def rat(x):
+    f = F(float(x))
+    return [f.numerator, f.denominator]
+
+
+def run_sector_case(ctx, s, c, spec_reqs, model_reqs):
+    """chemical potential (constructor keyword and / or add_chemical_potential) together with spin_sector in (None, 0, 1)"""
+    of = ctx.of
+    M = np.array([[complex(x[0], x[1]) for x in r] for r in c['M']])
+    n = M.shape[0]
+    h = n // 2
+    const = c['const']
+    mu_total = c['mu_ctor'] + sum(c['mu_add'])
+    Mc = M - mu_total * np.eye(n)
+    Dz = np.zeros((n, n), dtype=complex) if c.get('zero_delta') else None
+    try:
+        H = of.ops.QuadraticHamiltonian(M.copy(), Dz, const, chemical_potential=c['mu_ctor'])
+        for a in c['mu_add']:
+            H.add_chemical_potential(a)
+    except Exception as e:
+        s.violate('QuadraticHamiltonian(..., chemical_potential=) / add_chemical_potential raised %s: %s' % (type(e).__name__, e), c, {})
+        return
+    s.float_comparisons += 2
+    if abs(H.chemical_potential - mu_total) > TOL or err(np.asarray(H.hermitian_part) - M) > TOL \
+            or err(np.asarray(H.combined_hermitian_part) - Mc) > TOL:
+        s.violate('chemical_potential / hermitian_part / combined_hermitian_part do not describe M and mu', c, {})
+    # spin_sector = None: every oracle of the energies stream (transform, subset sums, default and explicit states)
+    check_obj(ctx, s, dict(c, spin_sector=None), H, Mc, None, const, spec_reqs, model_reqs, 2)
+    rng = __import__('random').Random(c['scratch'])
+    wb = []
+    for sct in (0, 1):
+        cs = dict(c, spin_sector=sct)
+        blk = Mc[sct * h:(sct + 1) * h, sct * h:(sct + 1) * h]
+        w = np.linalg.eigvalsh(blk)
+        wb.append(w)
+        Hs = dense_H(blk, None, const)
+        ws = np.linalg.eigvalsh(Hs)
+        try:
+            e_s, W_s, c_s = H.diagonalizing_bogoliubov_transform(spin_sector=sct)
+            e_s, W_s = np.asarray(e_s, dtype=float), np.asarray(W_s)
+            ret = {'sector_energies': e_s.tolist(), 'eigenvalues_of_block': w.tolist(), 'constant': float(np.real(c_s))}
+            s.float_comparisons += 4
+            if e_s.shape != w.shape or err(np.sort(e_s) - w) > TOL:
+                s.violate('orbital energies of spin sector %d are not the eigenvalues of the block of M - mu' % sct, cs, ret)
+                continue
+            if (W_s.shape != (h, h) or err(W_s @ W_s.conj().T - np.eye(h)) > TOL
+                    or err(W_s.T @ np.diag(e_s) @ W_s.conj() - blk) > TOL or abs(complex(c_s) - const) > TOL):
+                s.violate('diagonalizing_bogoliubov_transform(spin_sector=%d) does not diagonalise the block of M - mu' % sct, cs, ret)
+                continue
+            # Spec: many-body spectrum of the sector = subset sums of the returned sector energies
+            spec_reqs.append((cs, {'op': 'c12.spec.spectrum', 'es': [rat(e) for e in e_s], 'const': rat(np.real(c_s))}, ws, ret))
+            # default occupation of the sector: number of filled orbitals, state, energy
+            desc, start = of.circuits.gaussian_state_preparation_circuit(H, None, spin_sector=sct)
+            start = [int(x) for x in start]
+            s.count('sector-default-filling:%d/%d' % (len(start), h))
+            if len(start) != int(np.sum(w < 0)):
+                s.violate('default occupation of spin sector %d fills %d orbitals, the block of M - mu has %d negative eigenvalues'
+                          % (sct, len(start), int(np.sum(w < 0))), cs, ret)
+            psi = simulate_description(of, desc, start, h)
+            E = float(np.real(np.vdot(psi, Hs @ psi)))
+            s.float_comparisons += 3
+            if abs(np.linalg.norm(psi) - 1) > TOL or np.linalg.norm(Hs @ psi - E * psi) > TOL:
+                s.violate('default state of spin sector %d is not an eigenstate of the sector Hamiltonian' % sct, cs, ret)
+            elif abs(E - ws[0]) > TOL:
+                s.violate('default state of spin sector %d is not the ground state of the sector (E = %.12g, lowest = %.12g)'
+                          % (sct, E, ws[0]), cs, ret)
+            # Model: default energy from the independently computed eigenvalues of the block
+            model_reqs.append((cs, {'op': 'c12.energies', 'es': [rat(x) for x in w], 'const': rat(const), 'tol': rat(1e-8),
+                                    'conserving': True, 'occs': []}, ws[0], [E]))
+            # an explicit occupation of the sector
+            occ = sorted(rng.sample(range(h), rng.randint(0, h)))
+            desc, start = of.circuits.gaussian_state_preparation_circuit(H, occ, spin_sector=sct)
+            psi = simulate_description(of, desc, [int(x) for x in start], h)
+            Eo = float(np.sum(e_s[occ]) + const)
+            s.float_comparisons += 1
+            if np.linalg.norm(Hs @ psi - Eo * psi) > TOL or abs(np.linalg.norm(psi) - 1) > TOL:
+                s.violate('state of spin sector %d with occupied orbitals %s is not an eigenstate with energy sum eps + constant'
+                          % (sct, occ), cs, ret)
+        except Exception as e:
+            s.violate('spin sector %d: %s: %s' % (sct, type(e).__name__, e), cs, {})
+    # prepare_gaussian_state with one list of occupied orbitals per spin sector (orbitals in ascending order of energy)
+    try:
+        import cirq
+        up = sorted(rng.sample(range(h), rng.randint(0, h)))
+        dn = sorted(rng.sample(range(h), rng.randint(0, h)))
+        qubits = cirq.LineQubit.range(n)
+        circuit = cirq.Circuit(of.circuits.prepare_gaussian_state(qubits, H, (up, dn)))
+        psi = np.asarray(circuit.final_state_vector(qubit_order=qubits, dtype=np.complex128)).reshape(-1) if len(circuit.all_qubits()) \
+            else np.eye(2 ** n)[0].astype(complex)
+        Hd = dense_H(Mc, None, const)
+        E = float(np.sum(wb[0][up]) + np.sum(wb[1][dn]) + const)
+        s.count('prepare_gaussian_state:two-lists')
+        s.float_comparisons += 1
+        if np.linalg.norm(Hd @ psi - E * psi) > 1e-6:     # cirq simulates in the precision it is asked for; gates are exact to ~1e-8
+            s.violate('prepare_gaussian_state(occupied_orbitals=(%s, %s)) is not an eigenstate with the energy of these orbitals '
+                      '(residual %.3g)' % (up, dn, np.linalg.norm(Hd @ psi - E * psi)), dict(c, spin_sector='both'), {})
+    except Exception as e:
+        s.violate('prepare_gaussian_state raised %s: %s' % (type(e).__name__, e), dict(c, spin_sector='both'), {})
+
+
+def finish_sector(ctx, s, spec_reqs, model_reqs):
+    ans = ctx.driver.run([r for _, r, _, _ in spec_reqs])
+    for (c, _, w, ret), a in zip(spec_reqs, ans):
+        s.count('oracle:subset-sum-spectrum')
+        sp = np.array([rat_float(x) for x in a['spectrum']])
+        s.float_comparisons += len(sp)
+        if sp.shape != w.shape or err(sp - w) > TOL:
+            s.violate('subset sums of the orbital energies + constant are not the spectrum of H%s'
+                      % ('' if c.get('spin_sector') is None else ' restricted to spin sector %s' % c.get('spin_sector')), c,
+                      dict(ret, subset_sums=sp.tolist(), spectrum=w.tolist()))
+    ans = ctx.driver.run([r for _, r, _, _ in model_reqs])
+    for (c, rq, ge, energies), a in zip(model_reqs, ans):
+        s.float_comparisons += 2
+        if abs(rat_float(a['ground']) - ge) > TOL:
+            s.disagree('ground energy%s' % ('' if c.get('spin_sector') is None else ' of spin sector %s' % c.get('spin_sector')),
+                       c, ge, rat_float(a['ground']))
+        if energies and energies[0] is not None and abs(rat_float(a['default_energy']) - energies[0]) > TOL:
+            s.disagree('energy of the default occupation%s' % ('' if c.get('spin_sector') is None else ' of spin sector %s'
+                                                                % c.get('spin_sector')), c, energies[0], rat_float(a['default_energy']))
+
+
+def stream_sectors(ctx):
+    s = Stream('sectors', '(flags) chemical potential mu in {0, 0.5, -1.25} (constructor keyword, add_chemical_potential afterwards, or '
+               'both) x spin_sector in {None, 0, 1} x (spin-symmetric / spin-dependent blocks), spin-block-diagonal particle-conserving '
+               'Hamiltonians on 2, 4, 6 modes: sector energies = eigenvalues of the block of M - mu, W of the sector, many-body '
+               'spectrum of the sector as subset sums (Spec), number of filled orbitals / state / energy of the default occupation '
+               'of gaussian_state_preparation_circuit(..., spin_sector=s) (Model default energy from independent eigenvalues), explicit '
+               'occupations, prepare_gaussian_state with two lists; distinct = distinct (matrix, mu history)')
+    rng = rng_for(ctx.seed, 'c12-sectors')
+    N = budget(ctx.tier, 60, 500)
+    if ctx.drift:
+        N = max(N, 200)
+    spec_reqs, model_reqs = [], []
+    for t in range(N):
+        n = rng.choice([2, 4, 4, 6])
+        h = n // 2
+        symmetry = rng.choice(['symmetric', 'dependent', 'dependent'])
+        cplx = rng.random() < 0.4
+
+        def block():
+            B = np.zeros((h, h), dtype=complex)
+            for i in range(h):
+                B[i, i] = rng.choice([-2.0, -1.0, -0.5, 0.25, 0.75, 1.0, 1.5, 3.0])
+                for j in range(i + 1, h):
+                    if rng.random() < 0.8:
+                        v = rng.choice([-1.0, -0.5, 0.25, 0.5, 1.0])
+                        if cplx and rng.random() < 0.5:
+                            v = complex(v, rng.choice([-0.5, 0.25, 1.0]))
+                        B[i, j] = v
+                        B[j, i] = np.conj(v)
+            return B
+        up = block()
+        dn = up.copy() if symmetry == 'symmetric' else block()
+        M = np.zeros((n, n), dtype=complex)
+        M[:h, :h] = up
+        M[h:, h:] = dn
+        mu = SECTOR_MUS[t % 3]
+        how = rng.choice(['ctor', 'add', 'both'])
+        if how == 'ctor':
+            mu_ctor, mu_add = mu, []
+        elif how == 'add':
+            mu_ctor, mu_add = 0.0, [mu]
+        else:
+            mu_ctor, mu_add = 0.75, [mu - 0.75]
+        const = rng.choice([0.0, 1.0, -0.5])
+        # the default occupation is decided by the sign of the orbital energies: keep away from zero energies
+        ev = np.linalg.eigvalsh(M - mu * np.eye(n))
+        if np.abs(ev).min() < 1e-6:
+            s.count('discarded:zero-orbital-energy')
+            s.discards += 1
+            continue
+        c = {'kind': 'sectors', 'n': n, 'M': [[[x.real, x.imag] for x in r] for r in M], 'const': const, 'mu_ctor': mu_ctor,
+             'mu_add': mu_add, 'symmetry': symmetry, 'zero_delta': rng.random() < 0.2, 'scratch': rng.randrange(10 ** 9)}
+        s.case(c)
+        s.count('mu:%g' % mu)
+        s.count('mu-set-by:' + how)
+        s.count('blocks:' + symmetry)
+        s.count('n:%d' % n)
+        run_sector_case(ctx, s, c, spec_reqs, model_reqs)
+    finish_sector(ctx, s, spec_reqs, model_reqs)
+    return s
+
+
 def haar(nprng, n):
     z = nprng.normal(size=(n, n)) + 1j * nprng.normal(size=(n, n))
     q, r = np.linalg.qr(z)
@@ -972,20 +1455,51 @@ def stream_canonical(ctx):
 F12_WITNESS = {'M': [[3.0, 0.0], [0.0, -3.0]], 'Delta': [[0.0, 2.0], [-2.0, 0.0]], 'occupied_orbitals': [0]}
 
 
+NARROW_INT = ('int8', 'uint8', 'int16', 'int32')
+F12_OVERFLOW = 'F12-majorana-integer-overflow'
+F12_OVERFLOW_WITNESS = {'M': [[100, 0], [0, 90]], 'M_dtype': 'int8', 'Delta': [[0, 1], [-1, 0]]}
+
+
+def majorana_overflow_class(inp):
+    """hermitian_part stored as a narrow integer array, chemical potential 0 (so the stored matrix keeps that dtype), non-zero
+    antisymmetric part (so majorana_form runs) and an entry whose double does not fit the dtype: majorana_form evaluates
+    hermitian_part + hermitian_part.conj() in the stored dtype, which wraps around silently"""
+    if inp.get('kind') != 'dtypes' or inp.get('M_dtype') not in NARROW_INT or inp.get('mu') != 0:
+        return False
+    D = inp.get('Delta')
+    if D is None or not any(x[0] != 0 or x[1] != 0 for r in D for x in r):
+        return False
+    info = np.iinfo(inp['M_dtype'])
+    return any(2 * x[0] > info.max or 2 * x[0] < info.min for r in inp['M'] for x in r)
+
+
 def classify(v):
-    """F12: jw_get_gaussian_state with explicit occupied_orbitals for a non-particle-conserving Hamiltonian whose
-    Bogoliubov matrix has a singular annihilation block (consequence of C11/F11)"""
+    """F12-majorana-integer-overflow: see majorana_overflow_class.
+    F12: jw_get_gaussian_state for a non-particle-conserving Hamiltonian whose Bogoliubov matrix has a singular annihilation
+    block (consequence of C11/F11): explicit occupied_orbitals, or the default occupation when fermionic_gaussian_decomposition
+    of the matrix handed over by the state preparation demonstrably fails the C11 reconstruction oracle"""
     inp = v.get('input', {})
-    if (v.get('what', '').startswith('gaussian state is not') and inp.get('occupied_orbitals') is not None
-            and inp.get('conserves_particle_number') is False and inp.get('annihilation_block_singular') is True):
+    if majorana_overflow_class(inp):
+        return F12_OVERFLOW
+    if (v.get('what', '').startswith('gaussian state is not') and inp.get('conserves_particle_number') is False
+            and inp.get('annihilation_block_singular') is True
+            and (inp.get('occupied_orbitals') is not None or inp.get('gaussian_decomposition_wrong') is True)):
         return 'F12'
     return None
 
 
 def probe_known(ctx, k):
+    of = ctx.of
+    if k['id'] == F12_OVERFLOW:
+        w = F12_OVERFLOW_WITNESS
+        try:
+            H = of.ops.QuadraticHamiltonian(np.array(w['M'], dtype=w['M_dtype']), np.array(w['Delta'], dtype=float))
+            lowest = np.linalg.eigvalsh(dense_H(np.array(w['M'], dtype=complex), np.array(w['Delta'], dtype=complex), 0.0))[0]
+            return bool(abs(H.ground_energy() - lowest) > TOL)
+        except Exception:
+            return True
     if k['id'] != 'F12':
         return False
-    of = ctx.of
     M = np.array(F12_WITNESS['M'], dtype=complex)
     D = np.array(F12_WITNESS['Delta'], dtype=complex)
     try:
@@ -1085,11 +1599,23 @@ def replay(ctx, payload):
                 if sp.shape != w.shape or err(sp - w) > TOL:
                     return False
             return not [x for x in s.violations if classify(x) is None]
+        if inp.get('kind') == 'sectors':
+            s = Stream('replay', '')
+            sr, mr = [], []
+            run_sector_case(ctx, s, {k: v_ for k, v_ in inp.items() if k not in ('spin_sector', 'occupied_orbitals',
+                                                                               'annihilation_block_singular',
+                                                                               'gaussian_decomposition_wrong',
+                                                                               'conserves_particle_number')}, sr, mr)
+            finish_sector(ctx, s, sr, mr)
+            return not (s.violations or s.disagreements)
         if 'M' in inp:
             M, D, const, mu = ham_from_case(of, inp)
             s = Stream('replay', '')
             sr, mr = [], []
-            if inp.get('kind') == 'types':
+            if inp.get('kind') == 'dtypes':
+                run_dtype_case(ctx, s, {k: v_ for k, v_ in inp.items() if k not in ('occupied_orbitals', 'annihilation_block_singular',
+                                                                              'conserves_particle_number')}, sr, mr, 64)
+            elif inp.get('kind') == 'types':
                 n = M.shape[0]
                 Mt = typed(M, inp['M_type'])
                 Dt = None if D is None else typed(D, inp['Delta_type'])
@@ -1104,7 +1630,7 @@ def replay(ctx, payload):
                 if sp.shape != w.shape or err(sp - w) > TOL:
                     return False
             bad = [x for x in s.violations if classify(x) is None]
-            if 'occupied_orbitals' in inp and classify(v) is not None:
+            if classify(v) == F12_OVERFLOW or 'occupied_orbitals' in inp and classify(v) is not None:
                 bad = s.violations
             return not bad
     except Exception:
@@ -1113,5 +1639,5 @@ def replay(ctx, payload):
 
 
 def run(ctx):
-    return [stream_majorana(ctx), stream_energies(ctx), stream_history(ctx), stream_types(ctx), stream_slater(ctx),
-            stream_canonical(ctx)]
+    return [stream_majorana(ctx), stream_energies(ctx), stream_history(ctx), stream_types(ctx), stream_dtypes(ctx),
+            stream_sectors(ctx), stream_slater(ctx), stream_canonical(ctx)]
